@@ -7,6 +7,7 @@ import (
 	"sync/atomic"
 
 	"github.com/zeromicro/go-zero/core/errorx"
+	"github.com/zeromicro/go-zero/internal/verifhook"
 )
 
 const (
@@ -114,6 +115,7 @@ func ForEach[T any](generate GenerateFunc[T], mapper ForEachFunc[T], opts ...Opt
 		workers:   options.workers,
 	})
 
+	verifhook.At("mr.main.select")
 	for {
 		select {
 		case v := <-panicChan.channel:
@@ -313,6 +315,7 @@ func mapReduceWithPanicChan[T, U, V any](source <-chan T, panicChan *onceChan, m
 		workers:   options.workers,
 	})
 
+	verifhook.At("mr.main.select")
 	select {
 	case <-options.ctx.Done():
 		cancel(context.DeadlineExceeded)
@@ -376,6 +379,7 @@ func (gw guardedWriter[T]) Write(v T) {
 	case <-gw.ctx.Done():
 	case <-gw.done:
 	default:
+		verifhook.At("mr.write.guarded")
 		gw.channel <- v
 	}
 }
